@@ -22,4 +22,5 @@ CHECK = GraphCheck(
     nontrivial=nontrivial,
     deciding=["oracle.C16.iteration"],
     profile=("stage", "table", "iter"),
+    use_byteflow=True,
 )
